@@ -742,6 +742,8 @@ def scenario_text(sid, tag, cfg, argv, prog="prog"):
                 if a.requires:
                     ln += " req=" + hx(";".join(x.refspec() for x in a.requires))
         res.append(ln)
+    if getattr(cfg, "arg_file_key", None):
+        res.append("AF " + hx(cfg.arg_file_key))
     if cfg.env_name is not None:
         res.append("N " + hx(cfg.env_name))
     if cfg.line_len:
